@@ -266,6 +266,6 @@ MANIFEST = {
                   'times the summary difference (rational-function identity against an independently computed OLS), a draw that '
                   'hits the observed summaries is unchanged, the result is invariant under invertible affine re-expression of the '
                   'summaries; model probabilities sum to one, are proportional to share/n_sim*prior and permute with the models.',
-    'level_note': 'LinearRegression replaced by closed-form OLS (<=2 regressors, full rank assumed); <=5 rows, <=3 models; exact '
+    'level_note': 'LinearRegression replaced by closed-form OLS (<=2 regressors, full rank assumed); <=5 rows, <=3 models; requested parameter subset/order solver-chosen in one harness; exact '
                   'reals; identities decided by z3 polynomial normal form after clearing denominators, other claims by the solver.',
 }
